@@ -2,7 +2,8 @@
 
 spec/Codec.tla is the two-line codec contract (round trip; a damaged form decodes to an error or the original),
 model-checked as a tiny session machine. harness/cmd/codec evaluates seeded inputs (incl. empty) x 4 algorithms x
-damages of the compressed form (bit flips incl. every bit of the first/last bytes, byte substitutions, runs,
+damages of the compressed form, plus large inputs around typical internal limits (64 KiB .. 32 MiB, 8 MiB +-1,
+compressible and incompressible; every run has an input above 16 MiB per algorithm; bit flips incl. every bit of the first/last bytes, byte substitutions, runs,
 zero fills, truncations incl. to nothing, appended bytes, swapped halves, garbage) on the real compressor in child
 processes (a dying or hanging child is an outcome), aggregates outcome classes, and TLC judges every class with
 the spec's own Decompress guard (Trace_Codec). Classes the strict contract forbids are known findings only if one
@@ -113,7 +114,8 @@ def run(ctx):
             raise vlib.Inconclusive("binding self-test failed: a killed worker did not surface as outcome 'died'")
     ctx.cov["evaluations"] = summary["cases"]
     ctx.cov["distinct_nontrivial"] = summary["distinct_damaged"]
-    ctx.extra.update(inputs=summary["inputs"], outcome_classes=len(classes), classes_outside_strict_contract=nbad,
+    ctx.extra.update(large_input_cases=summary.get("large_input_cases", 0), large_input_bytes=summary.get("large_input_bytes", 0),
+                     inputs=summary["inputs"], outcome_classes=len(classes), classes_outside_strict_contract=nbad,
                      cases_per_known_finding=per_dev, worker_deaths=summary["worker_deaths"], slow_cases_retried=summary.get("slow_cases_retried", 0))
     for c in classes[:3] + [c for i, c in enumerate(classes, 1) if not verdicts[i]["ok"]][:3]:
         ctx.sample(dict(kind="outcome class", cls=c))
